@@ -1366,6 +1366,11 @@ class Evaluator:
                     return [(hit[0][1], st, 'ok')]
             if name == 'copy' and bt[0] in ('dict', 'list') and not pos:
                 return [(bt, st, 'ok')]
+            msig = METH_SIGS.get(name)
+            if msig is not None and pos and len(pos) <= len(msig) and not ({k for k, _ in kws} & set(msig[:len(pos)])) \
+                    and bt[0] not in ('dict', 'list', 'tuple', 'set') and not any(x[0] == 'starred' for x in pos):
+                kws = list(kws) + list(zip(msig, pos))       # x.sum(1) == x.sum(axis=1)
+                pos = []
             t = ('meth', name, bt, tuple(pos), tuple(sorted(kws, key=lambda x: x[0])))
             if name in MUTATING_METHODS:
                 key = _lvalue_key(e.func.value)
@@ -1403,10 +1408,27 @@ class Evaluator:
                 return [((callee.dotted.split('.')[-1], pos[0][1]), st, 'ok')]
             if callee.dotted == 'builtins.len' and len(pos) == 1 and not kws and pos[0][0] in ('list', 'tuple', 'dict'):
                 return [(C(len(pos[0][1])), st, 'ok')]
+            if callee.dotted == 'builtins.dict' and all(k != '**' for k, _ in kws) \
+                    and (not pos or (len(pos) == 1 and pos[0][0] == 'dict')):
+                # dict(a=1, b=2) / dict({...}, a=1): the literal with those entries
+                items = list(pos[0][1]) if pos else []
+                for k, v in kws:
+                    items = [(kk, vv) for kk, vv in items if kk != C(k)] + [(C(k), v)]
+                return [(('dict', tuple(items)), st, 'ok')]
             if callee.dotted.startswith(IMPURE_PREFIXES) and callee.dotted not in PURE_EXCEPTIONS:
                 # every evaluation of a sampler is a distinct draw: tag the term so two draws never compare equal
                 kws = list(kws) + [('#draw', C(next(self._fresh)))]
                 st.effects.append(('rng', callee.dotted, ln))
+            # positional spellings of well-known optional parameters become keywords (rules read keywords)
+            sig = LIB_SIGS.get(callee.dotted)
+            if sig is not None and len(pos) > sig[0] and not any(x[0] == 'starred' for x in pos):
+                extra = pos[sig[0]:]
+                if len(extra) <= len(sig[1]) and not ({k for k, _ in kws} & set(sig[1][:len(extra)])):
+                    kws = list(kws) + list(zip(sig[1], extra))
+                    pos = pos[:sig[0]]
+            dfl = LIB_DEFAULTS.get(callee.dotted)
+            if dfl:
+                kws = [(k, v) for k, v in kws if not (k in dfl and v == C(dfl[k]))]    # explicit defaults dropped
             # one spelling for "indices where a 1-D condition holds":
             #   np.nonzero(c) == np.where(c) ;  np.flatnonzero(c) == np.where(c)[0]
             if callee.dotted == 'numpy.nonzero' and len(pos) == 1 and not kws:
@@ -1574,6 +1596,18 @@ def _expand_any_all(t):
     return t
 
 
+# library callable -> (number of leading positional parameters kept, names of the following optional parameters)
+_AX = (1, ('axis',))
+LIB_SIGS = {'scipy.signal.argrelextrema': (2, ('axis', 'order', 'mode')),
+            'numpy.mean': _AX, 'numpy.sum': _AX, 'numpy.nansum': _AX, 'numpy.nanmean': _AX, 'numpy.median': _AX,
+            'numpy.std': _AX, 'numpy.max': _AX, 'numpy.min': _AX, 'numpy.all': _AX, 'numpy.any': _AX,
+            'numpy.cumsum': _AX, 'numpy.argmax': _AX, 'numpy.argmin': _AX, 'numpy.concatenate': _AX,
+            'numpy.diff': (1, ('n', 'axis')), 'numpy.pad': (2, ('mode',)), 'numpy.digitize': (2, ('right',)),
+            'scipy.interpolate.interp1d': (2, ('kind', 'axis', 'copy', 'bounds_error', 'fill_value', 'assume_sorted')),
+            'yaml.load': (1, ('Loader',)), 'yaml.load_all': (1, ('Loader',))}
+LIB_DEFAULTS = {'scipy.signal.argrelextrema': {'axis': 0, 'order': 1, 'mode': 'clip'}}
+METH_SIGS = {'sum': ('axis',), 'mean': ('axis',), 'std': ('axis',), 'max': ('axis',), 'min': ('axis',),
+             'all': ('axis',), 'any': ('axis',), 'cumsum': ('axis',), 'argmax': ('axis',), 'argmin': ('axis',)}
 _SYNTH = {}
 
 
